@@ -209,3 +209,18 @@ mutant("c08-checksum-without-flag", "C08", "C08.read.checksum", FD,
        "                state.frame_finished = true;\n                if state.frame_header.descriptor.content_checksum_flag() {\n                    let mut chksum = [0u8; 4];",
        "                state.frame_finished = true;\n                if state.frame_header.descriptor.content_checksum_flag() || state.block_counter == 7 {\n                    let mut chksum = [0u8; 4];")
 mutant("c08-finished-without-checksum", "C08", "C08.read.checksum", FD, "            state.frame_finished && state.check_sum.is_some()", "            state.frame_finished || state.check_sum.is_some()")
+
+# ---- C10 -------------------------------------------------------------------------------
+RBF = "ruzstd/src/decoding/ringbuffer.rs"
+mutant("c10-inexact-read-block-body", "C10", "C10.who.exact-reads", BLKD, "        source.read_exact(workspace.block_content_buffer.as_mut_slice())?;", "        let _ = source.read(workspace.block_content_buffer.as_mut_slice())?;")
+mutant("c10-window-desc-not-accounted", "C10", "C10.pair.accounting", FRAME, "        frame_header.window_descriptor = buf[0];\n        bytes_read += 1;", "        frame_header.window_descriptor = buf[0];")
+mutant("c10-dictid-accounted-wrong", "C10", "C10.pair.accounting", FRAME, "        bytes_read += dict_id_len;", "        bytes_read += 4;")
+mutant("c10-rle-reports-size", "C10", "C10.pair.accounting", BLKD, "                self.internal_state = DecoderState::ReadyToDecodeNextHeader;\n\n                Ok(1)", "                self.internal_state = DecoderState::ReadyToDecodeNextHeader;\n\n                Ok(u64::from(header.content_size) + 0)")
+mutant("c10-raw-reports-content-size", "C10", "C10.pair.accounting", BLKD, "                Ok(u64::from(header.decompressed_size))", "                Ok(u64::from(header.content_size.max(1)))")
+mutant("c10-checksum-not-accounted", "C10", "C10.pair.accounting", FD, "                        .map_err(err::FailedToReadChecksum)?;\n                    state.bytes_read_counter += 4;", "                        .map_err(err::FailedToReadChecksum)?;")
+mutant("c10-finished-without-last", "C10", "C10.dep.finished", FD, "            if block_header.last_block {\n                state.frame_finished = true;\n                if state.frame_header.descriptor.content_checksum_flag() {\n                    let mut chksum", "            if block_header.last_block || block_header.content_size == 0 {\n                state.frame_finished = true;\n                if state.frame_header.descriptor.content_checksum_flag() {\n                    let mut chksum")
+mutant("c10-skip-panicking-index", "C10", "C10.multi", FD, "                    input = input\n                        .get(length as usize..)\n                        .ok_or(FrameDecoderError::FailedToSkipFrame)?;", "                    input = &input[(length as usize).min(input.len())..];")
+mutant("c10-target-too-small-dropped", "C10", "C10.multi", FD, "                if self.can_collect() != 0 {\n                    return Err(FrameDecoderError::TargetTooSmall);\n                }\n                if self.is_finished() {", "                if self.is_finished() {")
+mutant("c10-vec-len-not-restored", "C10", "C10.multi", FD, "            Err(e) => {\n                output.resize(len, 0);\n                Err(e)", "            Err(e) => {\n                output.resize(len.max(1), 0);\n                Err(e)")
+mutant("c10-reader-second-segment", "C10", "C10.pair.accounting", RBF, "            let fill2 = fill_length - fill1;\n            debug_assert_eq!(fill_length, fill1 + fill2);\n            let s2 = unsafe {", "            let fill2 = fill_length - fill1 - 1;\n            let s2 = unsafe {")
+benign("c10-rename-bytes-read", "C10", FRAME, "bytes_read", "consumed", count=6)
